@@ -113,3 +113,645 @@ def _order_sources(f):
             if st is not None or lo is not None or up is not None:
                 out.append("slice [" + ast.unparse(n.slice) + "]")
     return out
+
+
+# =============================================================================================
+# bit order: B1 (full register), B2 (marginalisation), B3 (re-embedding)
+from . import bitorder, consteval
+
+TOMO = "tomography"
+A_COUNTS_PARSER = "tomography.CircuitResult.__init__"
+A_ZMASK = "tomography.z_pauli_from_bitstring"
+A_FITTER = "tomography.StabilizerMeasurementFitter.expectation_values"
+A_FITTER_INIT = "tomography.StabilizerMeasurementFitter.__init__"
+A_FULL_FITTER = "tomography.FullStateTomographyFitter.expectation_values"
+A_ESTIMATOR = "tomography._compute_expectation_value"
+A_DENSITY = "tomography._compute_density_matrix_from_pauli_expectation_values"
+
+
+def _is_none_test(test, name):
+    """('is', name) / ('isnot', name) if test is `name is None` / `name is not None`"""
+    if isinstance(test, ast.Compare) and len(test.ops) == 1 and isinstance(test.left, ast.Name) and test.left.id == name and \
+            isinstance(test.comparators[0], ast.Constant) and test.comparators[0].value is None:
+        return "is" if isinstance(test.ops[0], ast.Is) else ("isnot" if isinstance(test.ops[0], ast.IsNot) else None)
+    return None
+
+
+def B1_B2_counts(rep, flow: Flow, want=("B1", "B2")):
+    if "B1" in want:
+        rep.rule("B1", "full-register path: a count key (little-endian, Q5) reaches the stored outcome integer with bit j = qubit j; the Z mask integer is turned into a Pauli with array position j = bit j", floor=2)
+    if "B2" in want:
+        rep.rule("B2", "marginalisation: the character selected for list position j is the bit of register qubit qubits[j], and after int(.,2) list position j has significance 2^j", floor=1)
+    f = flow.prog.func(A_COUNTS_PARSER)
+    params = f.params
+    counts = [a.arg for a in f.node.args.args if a.annotation is not None and "Dict" in ast.unparse(a.annotation)] or [p for p in params if p == "counts"]
+    lists = [a.arg for a in f.node.args.args if a.annotation is not None and "Sequence" in ast.unparse(a.annotation) or a.arg == "qubits"]
+    if not counts or not lists:
+        raise AnalysisError(f"{A_COUNTS_PARSER}: cannot identify the counts / qubit-list parameters")
+    lp = lists[0]
+    sinks = []
+
+    def on_sink(sq, c):
+        if isinstance(c, ast.Call) and isinstance(c.func, ast.Name):
+            r = flow.prog.lookup_global(f.module, c.func.id)
+            if r and r[0] == "class":
+                init = flow.prog.find_method(r[1], "__init__")
+                if init and "bitstring" in init.params:
+                    arg = c.args[0] if c.args else next((k.value for k in c.keywords if k.arg == "bitstring"), None)
+                    if arg is not None:
+                        sinks.append((c, sq.q(arg), dict(sq.env)))
+
+    def walk(stmts, env, branch):
+        for st in stmts:
+            t = _is_none_test(st.test, lp) if isinstance(st, ast.If) else None
+            if t:
+                full, sub = (st.body, st.orelse) if t == "is" else (st.orelse, st.body)
+                for blk, br in ((full, "full"), (sub, "subset")):
+                    sq = bitorder.StrQual(f, {"__counts__": tuple(counts)}, [lp])
+                    n0 = len(sinks)
+                    sq.run(blk, on_sink)
+                    for (c, q, _) in sinks[n0:]:
+                        judge(c, q, br)
+                    for (rule, node, msg) in sq.problems:
+                        rid = "B2" if br == "subset" else "B1"
+                        if rid in rep.rules:
+                            rep.finding(rid, f"{A_COUNTS_PARSER}:{br}:select", f"{pyfacts.where(f, node)}: {msg} [{pyfacts.norm_stmt(node)}]")
+            elif isinstance(st, (ast.For, ast.If, ast.While)):
+                walk(st.body, env, branch)
+                walk(getattr(st, "orelse", []), env, branch)
+
+    seen = {"full": 0, "subset": 0}
+
+    def judge(c, q, br):
+        rid = "B1" if br == "full" else "B2"
+        if rid not in rep.rules:
+            return
+        seen[br] += 1
+        if q is None:
+            raise AnalysisError(f"{pyfacts.where(f, c)}: bit order of the stored outcome is outside the qualifier algebra [{pyfacts.norm_stmt(c)}]")
+        want_reg = "register" if br == "full" else lp
+        if q[0] == "ILE" and q[1] == want_reg and (len(q) < 3 or q[2] == "ok"):
+            rep.ok(rid, 1, nontrivial=(br, pyfacts.norm_stmt(c)), sample=f"{br} path: stored outcome is little-endian over {want_reg} [{pyfacts.norm_stmt(c)[:80]}]")
+        elif q[0] == "ILE" and len(q) == 3 and q[2] == "mirror":
+            pass  # the selection problem is already reported
+        else:
+            rep.finding(rid, f"{A_COUNTS_PARSER}:{br}:significance", f"{pyfacts.where(f, c)}: the stored outcome integer is {'big' if q[0]=='IBE' else '?'}-endian over {q[1]} (position j gets significance 2^(m-1-j)); every consumer assumes bit j = {('qubit j' if br=='full' else 'list position j')} [{pyfacts.norm_stmt(c)}]")
+
+    walk(f.node.body, {}, None)
+    if "B1" in rep.rules and seen["full"] == 0 or "B2" in rep.rules and seen["subset"] == 0:
+        raise AnalysisError(f"{A_COUNTS_PARSER}: no outcome sink found on the {'full' if seen['full']==0 else 'subset'} path (anchor vanished)")
+    if "B1" in rep.rules:
+        B1_zmask(rep, flow)
+
+
+def B1_zmask(rep, flow):
+    f = flow.prog.func(A_ZMASK)
+    intparam = f.params[1] if len(f.params) > 1 else None
+    if intparam is None:
+        raise AnalysisError(f"{A_ZMASK}: signature changed")
+    env = {}
+
+    def q(e):
+        if isinstance(e, ast.Name):
+            return env.get(e.id)
+        if isinstance(e, ast.JoinedStr):
+            fv = [v for v in e.values if isinstance(v, ast.FormattedValue)]
+            if len(fv) == 1 and isinstance(fv[0].value, ast.Name) and fv[0].value.id == intparam and fv[0].format_spec is not None:
+                spec_txt = "".join(v.value for v in fv[0].format_spec.values if isinstance(v, ast.Constant))
+                if spec_txt.endswith("b") and all(isinstance(v, ast.Constant) for v in e.values if not isinstance(v, ast.FormattedValue)) and \
+                        all(v.value == "" for v in e.values if isinstance(v, ast.Constant)):
+                    return ("LE", "mask")        # binary text of an integer: last character = bit 0
+            return None
+        if isinstance(e, ast.Call):
+            fn = e.func
+            if isinstance(fn, ast.Name) and fn.id in ("list", "tuple") and e.args:
+                return q(e.args[0])
+            if isinstance(fn, ast.Name) and fn.id == "reversed" and e.args:
+                return bitorder.toggle(q(e.args[0]))
+            if isinstance(fn, ast.Name) and fn.id == "format" and len(e.args) == 2 and isinstance(e.args[0], ast.Name) and e.args[0].id == intparam:
+                return ("LE", "mask")
+            if isinstance(fn, ast.Attribute) and fn.attr in ("array", "asarray") and e.args:
+                return q(e.args[0])
+            if isinstance(fn, ast.Attribute) and fn.attr in ("zfill", "rjust") :
+                return q(fn.value)
+            if isinstance(fn, ast.Attribute) and fn.attr == "binary_repr" and e.args and isinstance(e.args[0], ast.Name) and e.args[0].id == intparam:
+                return ("LE", "mask")
+        if isinstance(e, (ast.ListComp, ast.GeneratorExp)) and len(e.generators) == 1 and not e.generators[0].ifs:
+            g = e.generators[0]
+            base = q(g.iter)
+            # element-wise conversion of the loop variable keeps the order
+            names = {n.id for n in ast.walk(e.elt) if isinstance(n, ast.Name)}
+            if isinstance(g.target, ast.Name) and g.target.id in names:
+                return base
+            return None
+        if isinstance(e, ast.Subscript) and bitorder.is_rev_slice(e.slice):
+            return bitorder.toggle(q(e.value))
+        if isinstance(e, ast.Subscript) and isinstance(e.slice, ast.Slice) and isinstance(e.value, ast.Call) and isinstance(e.value.func, ast.Name) and e.value.func.id == "bin":
+            return ("LE", "mask")
+        return None
+
+    found = False
+    for st in f.node.body:
+        if isinstance(st, ast.Assign) and len(st.targets) == 1 and isinstance(st.targets[0], ast.Name):
+            env[st.targets[0].id] = q(st.value)
+        elif isinstance(st, ast.Expr) and isinstance(st.value, ast.Call) and isinstance(st.value.func, ast.Attribute) and st.value.func.attr == "reverse" and isinstance(st.value.func.value, ast.Name):
+            env[st.value.func.value.id] = bitorder.toggle(env.get(st.value.func.value.id))
+        for c in ast.walk(st):
+            if isinstance(c, ast.Call) and isinstance(c.func, ast.Name) and c.func.id == "Pauli" and isinstance(st, ast.Return):
+                found = True
+                arg = c.args[0] if c.args else None
+                if not (isinstance(arg, ast.Tuple) and len(arg.elts) == 2):
+                    raise AnalysisError(f"{pyfacts.where(f, c)}: Pauli constructor argument is not a (z, x) pair")
+                zq = q(arg.elts[0])
+                if zq is None:
+                    raise AnalysisError(f"{pyfacts.where(f, c)}: order of the z array is outside the qualifier algebra [{pyfacts.norm_stmt(c)}]")
+                if zq[0] == "BE":
+                    rep.ok("B1", 1, nontrivial="zmask", sample=f"z array position j = bit j of the mask [{pyfacts.norm_stmt(c)[:80]}]")
+                else:
+                    rep.finding("B1", f"{A_ZMASK}:order", f"{pyfacts.where(f, c)}: z array position j holds bit n-1-j of the mask: the reported Pauli is the mirror image of the measured one [{pyfacts.norm_stmt(c)}]")
+                xz = arg.elts[1]
+                if not (isinstance(xz, ast.Call) and isinstance(xz.func, ast.Attribute) and xz.func.attr == "zeros"):
+                    rep.finding("B1", f"{A_ZMASK}:x", f"{pyfacts.where(f, c)}: the x part of the computational-basis mask is not all-zero [{ast.unparse(xz)}]")
+    if not found:
+        raise AnalysisError(f"{A_ZMASK}: no `return Pauli((z, x))` found (anchor vanished)")
+
+
+def index_role(e, idxvar, valvar, listname):
+    """'POS' / 'QIDX' / None for a subscript index expression inside `for idxvar, valvar in enumerate(listname)`"""
+    if isinstance(e, ast.Name):
+        if e.id == idxvar:
+            return "POS"
+        if e.id == valvar:
+            return "QIDX"
+    if isinstance(e, ast.Subscript) and isinstance(e.value, ast.Name) and e.value.id == listname and index_role(e.slice, idxvar, valvar, listname) == "POS":
+        return "QIDX"
+    return None
+
+
+def B3_reembed(rep, flow: Flow):
+    rep.rule("B3", "re-embedding: factor j of the m-qubit Pauli (position in the measured list) is written to register position qubits[j]", floor=1)
+    f = flow.prog.func(A_FITTER)
+    n = 0
+    for loop in [x for x in ast.walk(f.node) if isinstance(x, ast.For)]:
+        it = loop.iter
+        idxvar = valvar = listname = None
+        if isinstance(it, ast.Call) and isinstance(it.func, ast.Name) and it.func.id == "enumerate" and it.args and isinstance(it.args[0], ast.Name) and isinstance(loop.target, ast.Tuple) and len(loop.target.elts) == 2:
+            idxvar, valvar, listname = loop.target.elts[0].id, loop.target.elts[1].id, it.args[0].id
+        elif isinstance(it, ast.Call) and isinstance(it.func, ast.Name) and it.func.id == "range" and len(it.args) == 1 and isinstance(it.args[0], ast.Call) and \
+                isinstance(it.args[0].func, ast.Name) and it.args[0].func.id == "len" and isinstance(it.args[0].args[0], ast.Name) and isinstance(loop.target, ast.Name):
+            idxvar, valvar, listname = loop.target.id, None, it.args[0].args[0].id
+        else:
+            continue
+        if listname != "qubits":
+            continue
+        for st in loop.body:
+            if isinstance(st, ast.Assign) and len(st.targets) == 1 and isinstance(st.targets[0], ast.Subscript) and isinstance(st.value, ast.Subscript):
+                n += 1
+                tr = index_role(st.targets[0].slice, idxvar, valvar, listname)
+                vr = index_role(st.value.slice, idxvar, valvar, listname)
+                if tr is None or vr is None:
+                    raise AnalysisError(f"{pyfacts.where(f, st)}: index roles of the re-embedding store are outside the vocabulary [{pyfacts.norm_stmt(st)}]")
+                if tr == "QIDX" and vr == "POS":
+                    rep.ok("B3", 1, nontrivial=pyfacts.norm_stmt(st), sample=f"{pyfacts.norm_stmt(st)}: register index <- list position")
+                else:
+                    rep.finding("B3", f"{A_FITTER}:reembed", f"{pyfacts.where(f, st)}: the full-register Pauli is subscripted by a {tr} and the m-qubit key by a {vr}; it must be register index <- list position [{pyfacts.norm_stmt(st)}]")
+    if n == 0:
+        raise AnalysisError(f"{A_FITTER}: no re-embedding store found in a loop over the measured qubits (anchor vanished)")
+
+
+# =============================================================================================
+# fitter wiring: W3-W7, S1-S3
+
+def _strip_wrappers(e):
+    while isinstance(e, ast.Call) and len(e.args) == 1 and not e.keywords and \
+            ((isinstance(e.func, ast.Name) and e.func.id in ("Bitstring", "int")) or (isinstance(e.func, ast.Attribute) and e.func.attr in ("int64", "int32"))):
+        e = e.args[0]
+    return e
+
+
+def _assigned(fnode, name):
+    return [n for n in ast.walk(fnode) if isinstance(n, ast.Assign) and len(n.targets) == 1 and isinstance(n.targets[0], ast.Name) and n.targets[0].id == name]
+
+
+def _circuit_parity(f, expr, depth=0):
+    """inversion parity of a circuit expression relative to the stored readout circuit R:
+    0 = R, 1 = inverse of R, None = unknown"""
+    if depth > 6:
+        return None
+    if isinstance(expr, ast.Call) and isinstance(expr.func, ast.Attribute) and expr.func.attr == "inverse" and not expr.args:
+        p = _circuit_parity(f, expr.func.value, depth + 1)
+        return None if p is None else p ^ 1
+    if isinstance(expr, ast.Call) and isinstance(expr.func, ast.Attribute) and expr.func.attr == "copy":
+        return _circuit_parity(f, expr.func.value, depth + 1)
+    if isinstance(expr, ast.Attribute) and expr.attr == "circuit":
+        # <...>.readout_info.circuit : the stored readout
+        return 0
+    if isinstance(expr, ast.Name):
+        asg = _assigned(f.node, expr.id)
+        if len(asg) == 1:
+            return _circuit_parity(f, asg[0].value, depth + 1)
+    return None
+
+
+def _evolve_direction(f, call):
+    """'pullback' (R^dagger P R) or 'push' (R P R^dagger) of a Pauli.evolve(circuit, frame=...) call"""
+    c = call.args[0] if call.args else next((k.value for k in call.keywords if k.arg == "other"), None)
+    fr = call.args[2] if len(call.args) > 2 else next((k.value for k in call.keywords if k.arg == "frame"), None)
+    frame = "h" if fr is None else (fr.value if isinstance(fr, ast.Constant) else None)
+    par = _circuit_parity(f, c) if c is not None else None
+    if frame not in ("h", "s") or par is None:
+        return None
+    # frame 's': C P C^dagger ; frame 'h': C^dagger P C   (C = R if parity 0, R^dagger if parity 1)
+    schrodinger_of_R = (frame == "s") == (par == 0)
+    return "push" if schrodinger_of_R else "pullback"
+
+
+def W_fitter(rep, flow: Flow, want=("W3", "W4", "W5", "W6", "W7", "S1")):
+    f = flow.prog.func(A_FITTER)
+    R = rep.rules
+    if "W4" in want:
+        rep.rule("W4", "the reported Pauli is the Z mask pulled back through the readout (R^dagger Z R) and its sign is read after pushing it forward again (R P R^dagger); effective direction = (frame, inversion parity of the circuit argument)", floor=2)
+    if "W5" in want:
+        rep.rule("W5", "the same loop value is the mask given to the Z-mask constructor and to the estimator", floor=1)
+    if "W6" in want:
+        rep.rule("W6", "the mask loop covers 1..2^n-1 for n = 2..6 and an identity entry is stored on every path: 2^n keys", floor=2)
+    if "W7" in want:
+        rep.rule("W7", "typestate of the dictionary key: between its last evolve assignment and the dictionary store its phase is reset to 0", floor=1)
+    if "S1" in want:
+        rep.rule("S1", "the multiplier applied to the estimate is +1 for phase 0 and -1 for phase 2 of the pushed-forward Pauli", floor=1)
+    # the mask loop: a for-loop over range(...) whose body calls the Z-mask constructor
+    zname = A_ZMASK.split(".")[-1]
+    ename = A_ESTIMATOR.split(".")[-1]
+    loops = [n for n in ast.walk(f.node) if isinstance(n, ast.For) and any(isinstance(c, ast.Call) and isinstance(c.func, ast.Name) and c.func.id == zname for c in ast.walk(n))]
+    if len(loops) != 1:
+        raise AnalysisError(f"{A_FITTER}: expected exactly one mask loop calling {zname}, found {len(loops)}")
+    loop = loops[0]
+    if not isinstance(loop.target, ast.Name):
+        raise AnalysisError(f"{A_FITTER}: mask loop target is not a plain variable")
+    lv = loop.target.id
+    body = loop.body
+    # ---- collect the statement sequence (top-level of the loop body only; nested shapes -> unknown)
+    zcall = ecall = None
+    evolves = []       # (stmt index, target var, receiver var, direction, call)
+    store = None       # (stmt index, key expr, value expr)
+    phase_reset = {}   # var -> [stmt indices]
+    for i, st in enumerate(body):
+        for c in ast.walk(st):
+            if isinstance(c, ast.Call) and isinstance(c.func, ast.Name) and c.func.id == zname:
+                zcall = (i, st, c)
+            if isinstance(c, ast.Call) and isinstance(c.func, ast.Name) and c.func.id == ename:
+                ecall = (i, st, c)
+            if isinstance(c, ast.Call) and isinstance(c.func, ast.Attribute) and c.func.attr == "evolve":
+                tgt = st.targets[0].id if isinstance(st, ast.Assign) and isinstance(st.targets[0], ast.Name) else None
+                recv = c.func.value.id if isinstance(c.func.value, ast.Name) else None
+                evolves.append((i, tgt, recv, _evolve_direction(f, c), c))
+        if isinstance(st, ast.Assign) and isinstance(st.targets[0], ast.Subscript) and isinstance(st.targets[0].value, ast.Name):
+            store = (i, st.targets[0].slice, st.value, st)
+        if isinstance(st, ast.Assign) and isinstance(st.targets[0], ast.Attribute) and st.targets[0].attr == "phase" and isinstance(st.targets[0].value, ast.Name) \
+                and isinstance(st.value, ast.Constant) and st.value.value == 0:
+            phase_reset.setdefault(st.targets[0].value.id, []).append(i)
+    if zcall is None or ecall is None or store is None or len(evolves) != 2:
+        raise AnalysisError(f"{A_FITTER}: mask loop shape outside the vocabulary (zmask call {bool(zcall)}, estimator call {bool(ecall)}, dictionary store {bool(store)}, {len(evolves)} evolve calls)")
+    zvar = zcall[1].targets[0].id if isinstance(zcall[1], ast.Assign) and isinstance(zcall[1].targets[0], ast.Name) else None
+    (i1, t1, r1, d1, c1), (i2, t2, r2, d2, c2) = evolves
+    if "W4" in R:
+        if d1 is None or d2 is None:
+            raise AnalysisError(f"{A_FITTER}: evolve direction not resolvable (frame / circuit argument outside the vocabulary)")
+        if r1 != zvar:
+            rep.finding("W4", f"{A_FITTER}:evolve1:receiver", f"{pyfacts.where(f, c1)}: the first evolve is not applied to the Z mask [{pyfacts.norm_stmt(c1)}]")
+        elif d1 != "pullback":
+            rep.finding("W4", f"{A_FITTER}:evolve1:direction", f"{pyfacts.where(f, c1)}: the Z mask is conjugated as R Z R^dagger; the operator measured by 'readout then Z' is R^dagger Z R [{pyfacts.norm_stmt(c1)}]")
+        else:
+            rep.ok("W4", 1, nontrivial="evolve1", sample=f"{pyfacts.norm_stmt(c1)} = R^dagger Z R")
+        if r2 != t1:
+            rep.finding("W4", f"{A_FITTER}:evolve2:receiver", f"{pyfacts.where(f, c2)}: the sign is not computed from the reported Pauli [{pyfacts.norm_stmt(c2)}]")
+        elif d2 != "push":
+            rep.finding("W4", f"{A_FITTER}:evolve2:direction", f"{pyfacts.where(f, c2)}: the sign is read after conjugating the reported Pauli in the same direction again instead of pushing it forward through the readout [{pyfacts.norm_stmt(c2)}]")
+        else:
+            rep.ok("W4", 1, nontrivial="evolve2", sample=f"{pyfacts.norm_stmt(c2)} = R P R^dagger")
+    if "W5" in R:
+        za = _strip_wrappers(zcall[2].args[1]) if len(zcall[2].args) > 1 else None
+        ea = _strip_wrappers(ecall[2].args[1]) if len(ecall[2].args) > 1 else None
+        okz = isinstance(za, ast.Name) and za.id == lv
+        oke = isinstance(ea, ast.Name) and ea.id == lv
+        if okz and oke:
+            rep.ok("W5", 1, nontrivial="mask", sample=f"{zname}(.., {lv}) and {ename}(.., {lv})")
+        else:
+            rep.finding("W5", f"{A_FITTER}:mask", f"{pyfacts.where(f, ecall[2])}: the Z-mask constructor gets `{ast.unparse(zcall[2].args[1]) if len(zcall[2].args)>1 else '?'}` but the estimator gets `{ast.unparse(ecall[2].args[1]) if len(ecall[2].args)>1 else '?'}`; both must be the loop value `{lv}`")
+    if "W7" in R:
+        key = store[1]
+        if not isinstance(key, ast.Name):
+            raise AnalysisError(f"{A_FITTER}: dictionary key is not a plain variable")
+        kv = key.id
+        last_asg = max([i for i, st in enumerate(body) if isinstance(st, ast.Assign) and isinstance(st.targets[0], ast.Name) and st.targets[0].id == kv and i < store[0]], default=None)
+        if last_asg is None:
+            raise AnalysisError(f"{A_FITTER}: key variable {kv} is not assigned in the loop")
+        resets = [i for i in phase_reset.get(kv, []) if last_asg < i < store[0]]
+        asg = body[last_asg]
+        rebuilt = isinstance(asg.value, ast.Call) and isinstance(asg.value.func, ast.Name) and asg.value.func.id == "Pauli"
+        from_evolve = any(isinstance(c, ast.Call) and isinstance(c.func, ast.Attribute) and c.func.attr == "evolve" for c in ast.walk(asg.value))
+        if resets or (rebuilt and not from_evolve):
+            rep.ok("W7", 1, nontrivial="key", sample=f"`{kv}.phase = 0` between `{pyfacts.norm_stmt(asg)[:50]}` and the store")
+        else:
+            rep.finding("W7", f"{A_FITTER}:signed-key", f"{pyfacts.where(f, store[3])}: the dictionary key `{kv}` comes out of evolve() and is stored without resetting its phase: keys are signed Paulis [{pyfacts.norm_stmt(store[3])}]")
+    if "S1" in R:
+        signvar = t2
+        ce = consteval.CE(flow.prog)
+        evar = ecall[1].targets[0].id if isinstance(ecall[1], ast.Assign) and isinstance(ecall[1].targets[0], ast.Name) else None
+        table = {}
+        for ph in (0, 2):
+            inst = consteval.Instance(flow.prog.cls("tomography.ReadoutInfo"))
+            inst.attrs["phase"] = ph
+            env = {signvar: inst}
+            if evar:
+                env[evar] = 1
+            try:
+                table[ph] = ce.ev(store[2], env, f)
+            except consteval.CERaise as ex:
+                table[ph] = f"raise {ex.etype}"
+        if table == {0: 1, 2: -1}:
+            rep.ok("S1", 1, nontrivial="sign", sample=f"multiplier table over the asserted phase domain: {table}")
+        else:
+            rep.finding("S1", f"{A_FITTER}:sign-table", f"{pyfacts.where(f, store[3])}: multiplier as a function of the pushed-forward phase is {table}, required {{0: +1, 2: -1}} [{pyfacts.norm_stmt(store[3])}]")
+    if "W6" in R:
+        it = loop.iter
+        if not (isinstance(it, ast.Call) and isinstance(it.func, ast.Name) and it.func.id == "range"):
+            raise AnalysisError(f"{A_FITTER}: mask loop is not over a range")
+        ce = consteval.CE(flow.prog)
+        nq = None
+        for name in {n.id for n in ast.walk(it) if isinstance(n, ast.Name)} - {"range"}:
+            nq = name
+        bad = None
+        for n in range(2, 7):
+            dom = set(ce.ev(it, {nq: n} if nq else {}, f))
+            if not set(range(1, 2 ** n)) <= dom or not dom <= set(range(0, 2 ** n)):
+                bad = (n, sorted(set(range(1, 2 ** n)) - dom)[:4], sorted(dom - set(range(0, 2 ** n)))[:4])
+                break
+        if bad:
+            rep.finding("W6", f"{A_FITTER}:domain", f"{pyfacts.where(f, loop)}: for n = {bad[0]} the mask loop `{ast.unparse(it)}` misses {bad[1]} / exceeds with {bad[2]}; it must cover 1..2^n-1")
+        else:
+            rep.ok("W6", 1, nontrivial="domain", sample=f"`{ast.unparse(it)}` covers 1..2^n-1 for n=2..6")
+        # identity entry stored at the top level of the function, before the first return
+        dict_name = store[3].targets[0].value.id
+        ident = None
+        for st in f.node.body:
+            if isinstance(st, ast.Return) or (isinstance(st, ast.If) and any(isinstance(x, ast.Return) for x in ast.walk(st))):
+                break
+            if isinstance(st, ast.Assign) and isinstance(st.targets[0], ast.Subscript) and isinstance(st.targets[0].value, ast.Name) and st.targets[0].value.id == dict_name:
+                k = st.targets[0].slice
+                if isinstance(k, ast.Call) and isinstance(k.func, ast.Name) and k.func.id == "Pauli" and k.args:
+                    try:
+                        lab = ce.ev(k.args[0], {nq: 3} if nq else {}, f)
+                    except Exception:
+                        lab = None
+                    if lab == "III" and isinstance(st.value, ast.Constant) and st.value.value in (1, 1.0):
+                        ident = st
+        zero_in = all(0 in set(ce.ev(it, {nq: n} if nq else {}, f)) for n in range(2, 7))
+        if ident is not None or zero_in:
+            rep.ok("W6", 1, nontrivial="identity", sample=f"identity entry: {pyfacts.norm_stmt(ident) if ident is not None else 'mask 0 is in the loop domain'}")
+        else:
+            rep.finding("W6", f"{A_FITTER}:identity", f"{f.module.rel} {f.qualname}: no identity entry (Pauli('I'*n) -> 1.0) is stored before the first return and mask 0 is not in the loop domain: 2^n-1 entries instead of 2^n")
+
+
+def W3_indexing(rep, flow: Flow):
+    rep.rule("W3", "the k-th tomography circuit is fitted with result_index = its own position, and the fitter indexes the list of counts with that stored index", floor=2)
+    f = flow.prog.func(A_FULL_FITTER)
+    cls_name = A_FITTER.split(".")[1]
+    done = False
+    for loop in [n for n in ast.walk(f.node) if isinstance(n, ast.For)]:
+        it = loop.iter
+        calls = [c for c in ast.walk(loop) if isinstance(c, ast.Call) and isinstance(c.func, ast.Name) and c.func.id == cls_name]
+        if not calls:
+            continue
+        done = True
+        if not (isinstance(it, ast.Call) and isinstance(it.func, ast.Name) and it.func.id == "enumerate" and isinstance(loop.target, ast.Tuple)):
+            raise AnalysisError(f"{A_FULL_FITTER}: the loop constructing per-circuit fitters is not an enumerate loop")
+        iv, cv = loop.target.elts[0].id, loop.target.elts[1].id
+        init = flow.prog.func(A_FITTER_INIT)
+        for c in calls:
+            b = {}
+            ps = init.params[1:]
+            for i, a in enumerate(c.args):
+                if i < len(ps):
+                    b[ps[i]] = a
+            for k in c.keywords:
+                b[k.arg] = k.value
+            ri = b.get("result_index")
+            ci = b.get("circuit")
+            if isinstance(ri, ast.Name) and ri.id == iv and isinstance(ci, ast.Name) and ci.id == cv:
+                rep.ok("W3", 1, nontrivial="ctor", sample=f"{pyfacts.norm_stmt(c)}")
+            else:
+                rep.finding("W3", f"{A_FULL_FITTER}:result_index", f"{pyfacts.where(f, c)}: per-circuit fitter built with circuit=`{ast.unparse(ci) if ci is not None else 'absent'}`, result_index=`{ast.unparse(ri) if ri is not None else 'absent (default 0)'}`; both must be the enumerate pair (`{cv}`, `{iv}`) [{pyfacts.norm_stmt(c)}]")
+    if not done:
+        raise AnalysisError(f"{A_FULL_FITTER}: no loop constructing {cls_name} found")
+    # the stored index is what indexes the counts list
+    init = flow.prog.func(A_FITTER_INIT)
+    stored = [n for n in ast.walk(init.node) if isinstance(n, ast.Assign) and isinstance(n.targets[0], ast.Attribute) and isinstance(n.value, ast.Name) and n.value.id == "result_index"]
+    fit = flow.prog.func(A_FITTER)
+    attr = stored[0].targets[0].attr if stored else None
+    used = [n for n in ast.walk(fit.node) if isinstance(n, ast.Subscript) and isinstance(n.slice, ast.Attribute) and n.slice.attr == attr]
+    gc = [n for n in ast.walk(fit.node) if isinstance(n, ast.Call) and isinstance(n.func, ast.Attribute) and n.func.attr == "get_counts"]
+    if attr and (used or any(n.args or n.keywords for n in gc)):
+        rep.ok("W3", 1, nontrivial="use", sample=f"counts[self.{attr}]")
+    else:
+        rep.finding("W3", f"{A_FITTER}:index-use", f"{fit.module.rel} {fit.qualname}: the stored result index is not used to select the counts of this circuit")
+
+
+def _is_odd_test(test, mask, outcome_attr):
+    """True if `test` is truthy exactly when popcount(mask & outcome) is odd; False if exactly when even; None unknown"""
+    def popcount_of_and(e):
+        # (A & B).bit_count()  |  bin(A & B).count('1')
+        inner = None
+        if isinstance(e, ast.Call) and isinstance(e.func, ast.Attribute) and e.func.attr == "bit_count":
+            inner = e.func.value
+        elif isinstance(e, ast.Call) and isinstance(e.func, ast.Attribute) and e.func.attr == "count" and isinstance(e.func.value, ast.Call) and \
+                isinstance(e.func.value.func, ast.Name) and e.func.value.func.id == "bin" and e.args and isinstance(e.args[0], ast.Constant) and e.args[0].value == "1":
+            inner = e.func.value.args[0]
+        if inner is None:
+            return None
+        if isinstance(inner, ast.BinOp):
+            ops = {ast.unparse(inner.left), ast.unparse(inner.right)}
+            names_ok = any(o == mask for o in ops) and any(o.endswith("." + outcome_attr) for o in ops)
+            if not names_ok:
+                return "operands"
+            return "and" if isinstance(inner.op, ast.BitAnd) else "op:" + type(inner.op).__name__
+        return None
+    def parity_expr(e):
+        # X & 1, X % 2
+        if isinstance(e, ast.BinOp) and isinstance(e.right, ast.Constant):
+            if (isinstance(e.op, ast.BitAnd) and e.right.value == 1) or (isinstance(e.op, ast.Mod) and e.right.value == 2):
+                return popcount_of_and(e.left)
+        return None
+    p = parity_expr(test)
+    if p is not None:
+        return (True, p)
+    if isinstance(test, ast.Compare) and len(test.ops) == 1 and isinstance(test.comparators[0], ast.Constant):
+        p = parity_expr(test.left)
+        v = test.comparators[0].value
+        if p is not None and isinstance(test.ops[0], (ast.Eq, ast.NotEq)) and v in (0, 1):
+            odd = (v == 1) == isinstance(test.ops[0], ast.Eq)
+            return (odd, p)
+    if isinstance(test, ast.UnaryOp) and isinstance(test.op, ast.Not):
+        r = _is_odd_test(test.operand, mask, outcome_attr)
+        if r is not None:
+            return (not r[0], r[1])
+    return None
+
+
+def S2_estimator(rep, flow: Flow):
+    rep.rule("S2", "estimator: every loop path adds the count to the total exactly once and adds it to (even parity of popcount(mask & outcome)) or subtracts it from (odd) the estimate exactly once; the result is estimate / total", floor=3)
+    from .paths import enumerate_paths
+    f = flow.prog.func(A_ESTIMATOR)
+    mask = f.params[1]
+    loops = [n for n in f.node.body if isinstance(n, ast.For)]
+    if len(loops) != 1:
+        raise AnalysisError(f"{A_ESTIMATOR}: expected one loop over the results")
+    loop = loops[0]
+    rets = [n for n in f.node.body if isinstance(n, ast.Return)]
+    if len(rets) != 1 or not (isinstance(rets[0].value, ast.BinOp) and isinstance(rets[0].value.op, ast.Div)):
+        raise AnalysisError(f"{A_ESTIMATOR}: return is not a quotient")
+    est, tot = ast.unparse(rets[0].value.left), ast.unparse(rets[0].value.right)
+    lvar = loop.target.id if isinstance(loop.target, ast.Name) else None
+    for p in enumerate_paths(loop.body):
+        e_ops, t_ops = [], []
+        for st in p.stmts:
+            if isinstance(st, ast.AugAssign) and isinstance(st.target, ast.Name):
+                val = ast.unparse(st.value)
+                if st.target.id == est:
+                    e_ops.append((type(st.op).__name__, val))
+                elif st.target.id == tot:
+                    t_ops.append((type(st.op).__name__, val))
+        parity = None
+        for (test, truth) in p.conds:
+            r = _is_odd_test(test, mask, "bitstring")
+            if r is None:
+                raise AnalysisError(f"{pyfacts.where(f, test)}: parity test outside the recognised idioms [{ast.unparse(test)}]")
+            odd_when_true, how = r
+            if how != "and":
+                rep.finding("S2", f"{A_ESTIMATOR}:parity-operands", f"{pyfacts.where(f, test)}: the parity is taken of `{ast.unparse(test)}` - it must be popcount(mask & outcome) ({how})")
+                parity = "bad"
+            else:
+                parity = "odd" if odd_when_true == truth else "even"
+        count_expr = f"{lvar}.count"
+        ok_t = t_ops == [("Add", count_expr)]
+        want = {"odd": [("Sub", count_expr)], "even": [("Add", count_expr)]}.get(parity)
+        if parity == "bad":
+            continue
+        if parity is None:
+            raise AnalysisError(f"{A_ESTIMATOR}: a loop path has no parity test")
+        if not ok_t:
+            rep.finding("S2", f"{A_ESTIMATOR}:total:{parity}", f"{f.module.rel} {f.qualname}: on the {parity}-parity path the total is updated by {t_ops}, required exactly one `+= {count_expr}`")
+        elif e_ops != want:
+            rep.finding("S2", f"{A_ESTIMATOR}:estimate:{parity}", f"{f.module.rel} {f.qualname}: on the {parity}-parity path the estimate is updated by {e_ops}, required {want}")
+        else:
+            rep.ok("S2", 1, nontrivial=parity, sample=f"{parity} parity: estimate {e_ops[0][0]} count, total += count")
+    rep.ok("S2", 1, nontrivial="quotient", sample=f"return {est} / {tot}")
+
+
+def S3_normalisation(rep, flow: Flow):
+    rep.rule("S3", "linear inversion: the matrix accumulates +<P>*P for every entry and is scaled by 2^-n (n = key length), evaluated for n = 2..6", floor=2)
+    f = flow.prog.func(A_DENSITY)
+    ce = consteval.CE(flow.prog)
+    acc = None
+    for n in ast.walk(f.node):
+        if isinstance(n, ast.AugAssign) and isinstance(n.target, ast.Name) and any(isinstance(c, ast.Call) and isinstance(c.func, ast.Attribute) and c.func.attr == "to_matrix" for c in ast.walk(n.value)):
+            acc = n
+    if acc is None:
+        raise AnalysisError(f"{A_DENSITY}: no accumulation of P.to_matrix() found")
+    if isinstance(acc.op, ast.Add) and isinstance(acc.value, ast.BinOp) and isinstance(acc.value.op, ast.Mult):
+        rep.ok("S3", 1, nontrivial="accumulate", sample=pyfacts.norm_stmt(acc))
+    else:
+        rep.finding("S3", f"{A_DENSITY}:accumulate", f"{pyfacts.where(f, acc)}: the matrix is not accumulated as += P * <P> [{pyfacts.norm_stmt(acc)}]")
+    mat = acc.target.id
+    nqs = [n for n in ast.walk(f.node) if isinstance(n, ast.Assign) and isinstance(n.targets[0], ast.Name) and isinstance(n.value, ast.Call) and isinstance(n.value.func, ast.Name) and n.value.func.id == "len"]
+    nq = nqs[0].targets[0].id if nqs else None
+    factor_nodes = []
+    for st in f.node.body:
+        if isinstance(st, ast.AugAssign) and isinstance(st.target, ast.Name) and st.target.id == mat and isinstance(st.op, (ast.Mult, ast.Div)):
+            factor_nodes.append((st, st.op, st.value))
+        if isinstance(st, ast.Return) and isinstance(st.value, ast.BinOp) and isinstance(st.value.left, ast.Name) and st.value.left.id == mat and isinstance(st.value.op, (ast.Mult, ast.Div)):
+            factor_nodes.append((st, st.value.op, st.value.right))
+    bad = None
+    for n in range(2, 7):
+        fac = 1.0
+        for (st, op, val) in factor_nodes:
+            v = ce.ev(val, {nq: n} if nq else {}, f)
+            fac = fac * v if isinstance(op, ast.Mult) else fac / v
+        if abs(fac - 2.0 ** (-n)) > 1e-15:
+            bad = (n, fac)
+            break
+    if bad:
+        rep.finding("S3", f"{A_DENSITY}:scale", f"{f.module.rel} {f.qualname}: for n = {bad[0]} the sum of <P>*P is scaled by {bad[1]}, required 2^-n = {2.0 ** -bad[0]}")
+    else:
+        rep.ok("S3", 1, nontrivial="scale", sample=f"scale factor = 2^-n for n=2..6 ({'; '.join(pyfacts.norm_stmt(s[0]) for s in factor_nodes)})")
+
+
+# =============================================================================================
+# builders: W1 (ReadoutInfo fields), W2 (stored readout is the composed object)
+
+BUILDERS = ["tomography.stabilizer_measurement_circuit", "tomography.full_state_tomography_circuits"]
+
+
+def W1_W2_builders(rep, flow: Flow, want=("W1", "W2")):
+    if "W1" in want:
+        rep.rule("W1", "the readout record stored with each measurement circuit carries the caller's measured-qubit list (same order) and the full register width", floor=2)
+    if "W2" in want:
+        rep.rule("W2", "the readout circuit stored in the metadata of a measurement circuit is the very object that was composed into that circuit", floor=2)
+    for fq in BUILDERS:
+        f = flow.prog.func(fq)
+        rets = [r for r in flow.paths(fq) if r.kind == "return"]
+        if not rets:
+            raise AnalysisError(f"{fq}: no return path")
+        for pi, r in enumerate(rets):
+            v = r.value
+            o = r.heap.get(v.oid) if isinstance(v, Ref) else None
+            circs = []
+            if o is not None and o.kind == "circuit":
+                circs = [o]
+            elif o is not None and o.kind == "list" and isinstance(o.elem, Ref):
+                circs = [r.heap[o.elem.oid]]
+            if not circs:
+                raise AnalysisError(f"{fq}: result is not a circuit or list of circuits")
+            for c in circs:
+                md = c.meta.get("metadata")
+                mdo = r.heap.get(md.oid) if isinstance(md, Ref) else None
+                recs = [val for (k, val, w) in (mdo.meta.get("stores", []) if mdo else []) if isinstance(val, Ref) and r.heap[val.oid].kind == "record"]
+                if not recs:
+                    rep.finding("W2", f"{fq}:no-record", f"{f.module.rel} {f.qualname} return path #{pi}: no readout record is stored in the metadata of the returned circuit")
+                    continue
+                rec = r.heap[recs[-1].oid]
+                comp = [ev for ev in r.events if ev[0] == "compose" and ev[4] == c.oid]
+                if not comp:
+                    raise AnalysisError(f"{fq}: the returned circuit is not the result of a compose (vocabulary)")
+                _, _, other_oid, qkey, _, cwhere = comp[-1]
+                circ_field = [val for val in rec.fields.values() if isinstance(val, Ref) and r.heap[val.oid].kind == "circuit"]
+                if "W2" in rep.rules:
+                    if len(circ_field) == 1 and circ_field[0].oid == other_oid:
+                        rep.ok("W2", 1, nontrivial=(fq, pi), sample=f"{f.qualname} path #{pi}: metadata record holds the object composed at {cwhere}")
+                    else:
+                        what = "a different circuit object" if circ_field else "no circuit"
+                        rep.finding("W2", f"{fq}:stored-readout", f"{f.module.rel} {f.qualname} return path #{pi}: the metadata record holds {what} than the readout composed into the circuit at {cwhere}: the fitter would pull the outcomes back through the wrong circuit")
+                if "W1" in rep.rules:
+                    lp = "measured_qubits"
+                    given = r.decisions.get(("isnone", ("param", lp)))
+                    others = {k: val for k, val in rec.fields.items() if not (isinstance(val, Ref) and r.heap[val.oid].kind == "circuit")}
+                    qfield = None
+                    for k, val in others.items():
+                        if isinstance(val, Ref) and r.heap[val.oid].kind in ("tuple", "list"):
+                            ic = r.heap[val.oid].meta.get("identity_conv_of")
+                            qfield = ("list", vkey(ic) if ic is not None else None, k)
+                        elif isinstance(val, Const) and val.v is None:
+                            qfield = qfield or ("none", None, k)
+                        elif isinstance(val, Sym) and val.tag == "param" and val.args[0] == lp:
+                            qfield = ("list", vkey(val), k)
+                    widths = [k for k, val in others.items() if vkey(val) == ("attr", ("param", "preparation_circuit"), "num_qubits")]
+                    if given is True:
+                        okq = qfield is not None and qfield[0] == "none"
+                    else:
+                        okq = qfield is not None and qfield[0] == "list" and qfield[1] == ("param", lp)
+                    if not okq:
+                        rep.finding("W1", f"{fq}:qubits:{'none' if given else 'given'}", f"{f.module.rel} {f.qualname} return path #{pi} (`{lp}` {'is None' if given else 'given'}): the readout record's qubit field is {qfield}; it must be {'None' if given else 'the caller list in order'}")
+                    elif not widths:
+                        rep.finding("W1", f"{fq}:width", f"{f.module.rel} {f.qualname} return path #{pi}: the readout record does not carry the full register width preparation_circuit.num_qubits")
+                    else:
+                        rep.ok("W1", 1, nontrivial=(fq, pi), sample=f"{f.qualname} path #{pi}: .{qfield[2]} = {'None' if given else lp}, .{widths[0]} = preparation_circuit.num_qubits")
